@@ -60,7 +60,11 @@ func (r *Result) trimViolations() {
 	per := map[string]int{}
 	out := []Violation{}
 	for _, v := range r.Violations {
-		k := v.Property + "|" + strings.Join(v.Also, ",") + "|" + v.Kind
+		sp := strings.SplitN(v.Sig, ":", 3)
+		if len(sp) > 2 {
+			sp = sp[:2]
+		}
+		k := v.Property + "|" + strings.Join(v.Also, ",") + "|" + v.Kind + "|" + strings.Join(sp, ":")
 		if per[k] < 4 {
 			out = append(out, v)
 		}
